@@ -418,6 +418,8 @@ class Bits(object):
     def __mul__(self,rvalue):
         if isinstance(rvalue,Bits):
             m = rvalue.ival
+        else:
+            m = rvalue
         res = self.ival*m
         return Bits(res,self.size)
 
